@@ -36,11 +36,12 @@ func c14(r *core.Run) {
 	p := r.Prog
 	r.Explanation = "Static rules over the attestation and report units (the keeper functions holding the quorum comparison, found from storage.MsgAttest / storage.MsgReport): the proof refresh / prover removal and the form deletion lie on every path behind the direct comparison count >= Param(AttestMinToPass) and behind the signer-matched flag; the counter is incremented by one only under the element's Complete flag inside the form loop; the flag and Complete:=true are set only under Eq(element.Provider, signer); acting paths always delete the loaded form; forms are built from the filtered active-provider list behind the size check."
 	r.Assumptions = []string{T1, T4, T6}
-	r.NotDecided = []string{"distinctness of named providers and 'never the prover itself' (string-domain reasoning about URL hosts)", "shuffle quality"}
+	r.NotDecided = []string{"distinctness of the named providers among themselves (the stored active-provider list is trusted to hold one entry per provider)", "shuffle quality"}
 	r.Rule("C14/R1", "quorum gate: every acting effect (proof refresh, prover removal, form deletion) is on all paths behind Cmp(count >= Param(AttestMinToPass)) with direct operands and behind Flag(signer matched)=true; all effects behind Found(form)=true")
 	r.Rule("C14/R2", "counting: count is a phi incremented by the constant 1 only under the element's Complete flag; the matched flag and Complete:=true are set only under Eq(element.Provider, signer)=true")
 	r.Rule("C14/R3", "consumed: every path through an acting effect deletes the form, with the key arguments it was loaded by")
 	r.Rule("C14/R5", "the acting effect concerns the prover named on the form: the proof refreshed / the prover removed is selected by msg.Prover or form.Prover and never by the signer")
+	r.Rule("C14/R6", "a form never names the prover it concerns: each component of the exclusion key is extracted from the candidate's address by the same term as from the requesting prover's address, and every candidate that reaches the comparison has passed the shape tests under which the prover's key is set (the filter is reflexive)")
 	r.Rule("C14/R4", "form construction: the form write is behind Found(form)=false, ErrNil(prover lookup), Found(provider) and Cmp(len(candidates) >= Param(AttestFormSize)); entries ⊵ the filtered active-provider list and no message field")
 	hs, err := p.Handlers()
 	if err != nil {
@@ -250,6 +251,114 @@ func c14(r *core.Run) {
 	}
 	r.Floor("C14/R1", n, 2, "quorum units")
 
+	// ---- R6 a form never names the prover it concerns: the candidate filter is reflexive
+	if hr := core.HandlerByKey(hs, "storage.MsgRequestAttestationForm"); hr != nil {
+		nExcl := 0
+		for _, fn := range p.Summary(hr.Fn).Funcs {
+			if len(fn.Params) == 0 || fn.Blocks == nil {
+				continue
+			}
+			tb := core.NewTermBuilder(p)
+			tb.Bounds = true
+			// both URL sources are named U: the terms then speak about "the same extraction of a URL"
+			allInstrs(fn, func(in ssa.Instruction) {
+				if c, ok := in.(*ssa.Call); ok && strings.HasSuffix(core.CalleeFullName(c), "net/url.Parse") && len(c.Call.Args) == 1 {
+					tb.Names[c.Call.Args[0]] = "U"
+				}
+			})
+			isFilterSide := func(v ssa.Value) bool {
+				ph, ok := v.(*ssa.Phi)
+				return ok && !core.InCycle(ph.Block())
+			}
+			mustGuards := func(target *ssa.BasicBlock) map[string]bool {
+				out := map[string]bool{}
+				for _, b := range fn.Blocks {
+					ifi, ok := b.Instrs[len(b.Instrs)-1].(*ssa.If)
+					if !ok {
+						continue
+					}
+					for succ := 0; succ < 2; succ++ {
+						if core.PathExists(fn, map[core.Edge]bool{{From: b, Succ: succ}: true}, target.Instrs[0], nil) {
+							continue
+						}
+						// every path to target leaves b through the OTHER edge
+						ca := p.NormCond(ifi)
+						if ca.Kind != "cmp" {
+							continue
+						}
+						truth := !ca.Neg
+						if succ == 0 {
+							truth = ca.Neg
+						}
+						op := ca.Op
+						if !truth {
+							op = negate(op)
+						}
+						x, y := tb.Term(ca.X), tb.Term(ca.Y)
+						if op == token.LSS || op == token.LEQ {
+							x, y, op = y, x, flip(op)
+						}
+						if !strings.Contains(x+y, "U") || x == "len(U)" || y == "len(U)" {
+							continue
+						}
+						out[x+op.String()+y] = true
+					}
+				}
+				return out
+			}
+			for _, b := range fn.Blocks {
+				ifi, ok := b.Instrs[len(b.Instrs)-1].(*ssa.If)
+				if !ok || !core.InCycle(b) {
+					continue
+				}
+				ca := p.NormCond(ifi)
+				if ca.Kind != "eq" {
+					continue
+				}
+				var fside, cside ssa.Value
+				switch {
+				case isFilterSide(ca.X) && !isFilterSide(ca.Y):
+					fside, cside = ca.X, ca.Y
+				case isFilterSide(ca.Y) && !isFilterSide(ca.X):
+					fside, cside = ca.Y, ca.X
+				default:
+					continue
+				}
+				if !p.ProvAt(fside, "", ifi).Any(func(a core.Atom) bool { return a.Kind == "param" && a.Fn == fn }) {
+					continue
+				}
+				nExcl++
+				r.Analysed(core.FnName(fn))
+				ct := tb.Term(cside)
+				fphi := fside.(*ssa.Phi)
+				okTerm := false
+				var fGuards map[string]bool
+				var alts []string
+				for i, e := range fphi.Edges {
+					et := tb.Term(e)
+					alts = append(alts, et)
+					if et == ct {
+						okTerm = true
+						fGuards = mustGuards(fphi.Block().Preds[i])
+					}
+				}
+				construct := "form-candidates:prover-excluded:" + core.FnName(fn) + ":" + fphi.Comment
+				if !okTerm {
+					r.Violation("C14/R6", construct, p.InstrPos(ifi), "the candidate's key ("+ct+") is not extracted the way the requesting prover's key is ("+strings.Join(alts, " | ")+"): a provider compared against its own address is not recognised, so a form can name the prover it concerns")
+					continue
+				}
+				cGuards := mustGuards(b)
+				missing := ""
+				for g := range fGuards {
+					if !cGuards[g] {
+						missing = g
+					}
+				}
+				r.Check(missing == "", "C14/R6", construct, p.InstrPos(ifi), "same extraction on both sides; every candidate compared has passed the shape tests under which the prover's key is set", "the prover's key is only set when "+missing+", but a candidate can reach the comparison without that test: for such an address the prover is not excluded from its own form")
+			}
+		}
+		r.Floor("C14/R6", nExcl, 2, "prover-exclusion comparisons")
+	}
 	// ---- R4 form construction
 	for _, fs := range []struct{ key, prefix string }{{"storage.MsgRequestAttestationForm", "storage/Attestation/value/"}, {"storage.MsgRequestReportForm", "storage/Report/value/"}} {
 		h := core.HandlerByKey(hs, fs.key)
